@@ -189,7 +189,8 @@ def end_to_end(ctx, I, prop: str, rule_found: str, rule_absent: str) -> int:
                 try:
                     got = find(ast_, syms, names)
                 except tokrx.Undecided as exc:
-                    raise AnalysisError(f"stream search undecided: {exc} [{construct}]")
+                    ctx.defer(f"stream search undecided: {exc} [{construct}]")
+                    continue
                 n += 1
                 if expect is None:
                     if prop == "C07":
